@@ -31,6 +31,7 @@ type HarnessSpec struct {
 	MaxPaths int            `json:"max_paths,omitempty"`
 	MaxSteps int            `json:"max_steps,omitempty"`
 	TierOnly string         `json:"tier_only,omitempty"`
+	BudgetS  int            `json:"budget_s,omitempty"`
 	SymAddr  bool           `json:"sym_addr,omitempty"`
 	NoMapOrders bool        `json:"no_map_orders,omitempty"`
 	Note     string         `json:"note,omitempty"`
@@ -251,10 +252,18 @@ func runMain(args []string) int {
 					if u.spec.MaxPaths > 0 {
 						ex.maxPaths = u.spec.MaxPaths
 					}
-					ex.maxSteps = 2000000
+					ex.maxSteps = 300000
 					if u.spec.MaxSteps > 0 {
 						ex.maxSteps = u.spec.MaxSteps
 					}
+					budget := 900 * time.Second
+					if *tier == "thorough" {
+						budget = 3 * time.Hour
+					}
+					if u.spec.BudgetS > 0 {
+						budget = time.Duration(u.spec.BudgetS) * time.Second
+					}
+					ex.deadline = time.Now().Add(budget)
 					ex.symAddr = u.spec.SymAddr
 					ex.mapOrders = !u.spec.NoMapOrders
 					q0, s0, us0, uk0, st0t := ex.solverCounts()
